@@ -8,7 +8,7 @@
   The look-ahead (`HighLevelEncoder_lookAheadTest`, float arithmetic) is an arbitrary oracle
   `la : message → position → current mode → mode` in every theorem.
 -/
-import Gzx.Proofs.DMAsciiRoundTrip
+import Gzx.Proofs.DMRoundTripAB
 namespace Gzx.Properties.C02
 open Gzx Gzx.DMHighLevel
 
@@ -104,6 +104,31 @@ theorem dm_encoder_invariant_init (T : Tables) (msg : List Nat) (cfg : Cfg) :
   let ⟨a, h, _⟩ := initCtx_inv T msg cfg
   ⟨a, h⟩
 
+/-- `base256_length_inv`: the decoder reads back the length field the encoder writes — one byte for 1..249
+    data bytes, two bytes (`len/250+249`, `len%250`) for 250..1555, and 0 = "to the end of the symbol" — and
+    un-randomises exactly the data bytes, at every offset, whatever follows an explicit-length segment. -/
+theorem base256_length_inv (data suf : List Nat) (off : Nat) (a : Acc) (hd : ∀ x ∈ data, x < 256) :
+    (1 ≤ data.length → data.length ≤ 249 →
+      b256Seg (rand255All (data.length :: data) (off + 1) ++ suf) off a
+        = .ok (a.push256All data, 1 + data.length)) ∧
+    (250 ≤ data.length → data.length ≤ 1555 →
+      b256Seg (rand255All ((data.length / 250 + 249) :: (data.length % 250) :: data) (off + 1) ++ suf) off a
+        = .ok (a.push256All data, 2 + data.length)) ∧
+    b256Seg (rand255All (0 :: data) (off + 1)) off a = .ok (a.push256All data, 1 + data.length) :=
+  ⟨b256Seg_len1 data suf off a hd, b256Seg_len2 data suf off a hd, b256Seg_toEnd data off a hd⟩
+
+/-- `dm_encoder_invariant` (Base 256): a whole call of the Base-256 encoder, started right after the latch
+    231, consumes at least one character and either re-establishes the invariant (explicit length field) or
+    ends the message with the symbol exactly full and the whole stream decoding to the message consumed
+    (length 0).  `la` and the symbol table are arbitrary. -/
+theorem dm_encoder_invariant_base256 (T : Tables) (syms : List SymbolInfo) (la : LookAhead) (c c' : Ctx) (a : Acc)
+    (hbytes : ∀ x ∈ c.msg, x < 256) (hL : Latched256 T c a) (hle : c.pos ≤ c.total) (hmore : c.hasMore = true)
+    (hnew : c.newEnc = none) (h : b256Encode syms la c = .ok c') :
+    ∃ a', a'.trailer = a.trailer ∧ c.pos < c'.pos ∧
+      (Inv T c' a' ∨ (c'.hasMore = false ∧ Exact T c' a')) := by
+  obtain ⟨a', ht, _, _, _, hp, _, _, hres⟩ := b256_step_inv hbytes hL hle hmore hnew h
+  exact ⟨a', ht, hp, hres⟩
+
 /-! ## round trip -/
 
 /-
@@ -112,18 +137,25 @@ theorem dm_encoder_invariant_init (T : Tables) (msg : List Nat) (cfg : Cfg) :
     theorem dm_roundtrip (syms) (la : LookAhead) (msg) (cfg) (cw) (hb : ∀ x ∈ msg, x < 256) :
         encodeHL syms la msg cfg = .ok cw → decodeText refTables cw = .ok msg
 
-  Proved part: all encodings that stay in ASCII encodation (`dm_roundtrip_ascii_partial`): digit pairs, ASCII
-  characters, upper shift for 128..255, macro 05/06 header + trailer, the `UpdateSymbolInfo` step and 129 /
-  253-state padding, for every symbol table and every shape / min / max hint.
-  Missing cases: the steps of the C40, Text, X12, EDIFACT and Base-256 encoders (latch, triplets / quadruples,
-  their end-of-data handlers `c40HandleEOD`, backtracking, `x12HandleEOD`, `edifactHandleEOD`, the Base-256
-  length field) are covered by the codec lemmas above at the character / group level only; for whole messages
-  these modes rest on the correspondence suites and on the oracle on the real code.
+  Proved part (`dm_roundtrip_ascii_base256_partial`): every encoding that uses ASCII and Base-256 encodation
+  only, i.e. for every look-ahead oracle that proposes nothing but these two modes: digit pairs, ASCII
+  characters, upper shift for 128..255, macro 05/06 header + trailer, Base-256 runs with 1- and 2-byte length
+  fields and the exact-fill case (length 0), any number of switches between the two modes, the final
+  `UpdateSymbolInfo` and the 129 / 253-state padding — for every symbol table and every shape/min/max hint.
+  Missing cases: the steps of the C40, Text, X12 and EDIFACT encoders (latch, triplets / quadruples, their
+  end-of-data handlers `c40HandleEOD` + backtracking, `x12HandleEOD`, `edifactHandleEOD`) are covered by the
+  codec lemmas above at the character / group level only; for whole messages these four modes rest on the
+  correspondence suites (exact codewords model vs. code) and on the oracle on the real code.
 -/
 
-/-- `dm_roundtrip`, ASCII part: for every symbol table, every hint configuration, every message of bytes and
-    every look-ahead oracle that stays in ASCII encodation, the codewords `encodeHL` returns (including
-    padding) decode to exactly the message. -/
+/-- `dm_roundtrip`, ASCII + Base-256 part. -/
+theorem dm_roundtrip_ascii_base256_partial (T : Tables) (syms : List SymbolInfo) (la : LookAhead)
+    (hla : LaAB la) (msg : List Nat) (cfg : Cfg) (cw : List Nat)
+    (hb : ∀ x ∈ msg, x < 256) (h : encodeHL syms la msg cfg = .ok cw) :
+    decodeText T cw = .ok msg :=
+  roundtrip_ab T syms la hla msg cfg cw hb h
+
+/-- the ASCII-only special case: a look-ahead oracle that never leaves ASCII -/
 theorem dm_roundtrip_ascii_partial (T : Tables) (syms : List SymbolInfo) (la : LookAhead)
     (hla : ∀ m p, la m p ASCII = ASCII) (msg : List Nat) (cfg : Cfg) (cw : List Nat)
     (hb : ∀ x ∈ msg, x < 256) (h : encodeHL syms la msg cfg = .ok cw) :
@@ -138,5 +170,11 @@ example : decodeText refTables [66, 142, 129] = .ok [65, 49, 50] := by decide
 example : encodeHL [⟨false, 5, 7, 10, 10, 1⟩] (fun _ _ _ => ASCII) [91, 41, 62, 30, 48, 53, 29, 65, 30, 4] {}
     = .ok [236, 66, 129, 220, 115] := by decide
 example : decodeText refTables [236, 66, 129, 220, 115] = .ok [91, 41, 62, 30, 48, 53, 29, 65, 30, 4] := by decide
+/-- an oracle that sends everything to Base 256: "\x80\x81\x82" fills a 5-codeword symbol exactly
+    (latch, length 0, three data bytes) — the D5 witness — and decodes -/
+example : LaAB (fun _ _ _ => BASE256) := fun _ _ _ => Or.inr rfl
+example : encodeHL [⟨false, 5, 7, 10, 10, 1⟩] (fun _ _ _ => BASE256) [128, 129, 130] {}
+    = .ok [231, 44, 65, 216, 110] := by decide
+example : decodeText refTables [231, 44, 65, 216, 110] = .ok [128, 129, 130] := by decide
 
 end Gzx.Properties.C02
